@@ -417,7 +417,11 @@ func c04Ops(r *RNG, tc *TrieCase, starts []string) []c04Op {
 // c04Starts: "" first, then a sample of the query set (every query when the budget allows).
 func c04Starts(r *RNG, tc *TrieCase, budget int) []string {
 	n := len(tc.Keys)
-	max := budget / (4 * (n + 2))
+	cost := n + 2 // bytes written by one full sequence (hex doubles it)
+	for _, k := range tc.Keys {
+		cost += len(k)
+	}
+	max := budget / (4 * cost)
 	if max < 3 {
 		max = 3
 	}
@@ -525,8 +529,8 @@ func c04Run(c *Ctx) {
 	}
 
 	// (a) complete tries
-	nComplete := c.N(260, 4000)
-	budget := c.N(1500, 4000)
+	nComplete := c.N(260, 2500)
+	budget := c.N(6000, 9000)
 	for i := 0; i < nComplete; i++ {
 		r := c.R.Fork()
 		kind := r.Intn(KKindCnt)
